@@ -477,7 +477,47 @@ impl Prop for C10 {
 		Ok(())
 	}
 
-	fn enumerate(_tier: Tier, shard: usize, nshards: usize, f: &mut dyn FnMut(Case, bool) -> bool) -> Vec<&'static str> {
+	fn enumerate(tier: Tier, shard: usize, nshards: usize, f: &mut dyn FnMut(Case, bool) -> bool) -> Vec<&'static str> {
+		// LONG histories through one handle: k edits around every small counter width
+		{
+			let mut ks: Vec<usize> = vec![63, 64, 65, 127, 128, 129, 255, 256, 257, 511, 512, 513];
+			if tier == Tier::Thorough {
+				ks.extend([1023, 1024, 1025, 4095, 4096, 4097]);
+			}
+			let mut gi = 0usize;
+			for k in ks {
+				for shape in 0..4usize {
+					gi += 1;
+					if gi % nshards != shard {
+						continue;
+					}
+					let mut ops: Vec<POp> = vec![POp::Normalize];
+					for j in 0..k {
+						ops.push(match (shape, j % 4) {
+							(0, _) => POp::Push(if j % 2 == 0 { "a".into() } else { "".into() }),
+							(1, 0) | (1, 1) => POp::Push("x".into()),
+							(1, _) => POp::Pop,
+							(2, 0) => POp::SymPush("a:b".into()),
+							(2, 1) => POp::SymPush("..".into()),
+							(2, 2) => POp::Push("".into()),
+							(2, _) => POp::Pop,
+							(_, 0) => POp::Push("..".into()),
+							(_, 1) => POp::Pop,
+							(_, 2) => POp::SymPush(".".into()),
+							(_, _) => POp::Read,
+						});
+					}
+					ops.push(POp::Normalize);
+					ops.push(POp::Push("z".into()));
+					ops.push(POp::Pop);
+					let fam = if gi % 2 == 0 { Fam::Uri } else { Fam::Iri };
+					let embed = if gi % 3 == 0 { None } else { Some(Embed { full: true, scheme: Some("s".into()), authority: if gi % 3 == 1 { Some("h".into()) } else { None }, query: Some("q".into()), fragment: Some("f".into()) }) };
+					if !f(Case { fam, embed, abs: gi % 2 == 0, segs: vec!["a:b".into(), "c".into()], ops }, true) {
+						return vec![];
+					}
+				}
+			}
+		}
 		// all initial paths of <= 2 segments over {a, '', ., .., a:b} x 4 hosts x ALL op sequences of length <= 2
 		let alphabet = ["a", "", ".", "..", "a:b", "C:"];
 		let mut inits: Vec<Vec<String>> = vec![vec![]];
@@ -525,7 +565,7 @@ impl Prop for C10 {
 				}
 			}
 		}
-		vec!["initial paths of <= 2 segments over {a,'',.,..,a:b} x {relative, absolute} x 5 hosts (stand-alone, scheme only, bare reference, authority, empty authority) x all op sequences of length <= 2 over 12 ops"]
+		vec!["histories of k+4 calls through one handle for k = 63..513 around powers of two (thorough: up to 4097), four op mixes", "initial paths of <= 2 segments over {a,'',.,..,a:b} x {relative, absolute} x 5 hosts (stand-alone, scheme only, bare reference, authority, empty authority) x all op sequences of length <= 2 over 12 ops"]
 	}
 
 	fn floors(_tier: Tier) -> Vec<(&'static str, u64)> {
